@@ -39,3 +39,8 @@ pub fn partial_write(out: &mut dyn Write, bytes: &[u8]) -> std::io::Result<usize
 pub fn leaked_order(m: &HashMap<String, u32>) -> Vec<String> {
     m.keys().cloned().collect()
 }
+
+// C12.T: sources of run-to-run variation (clock, environment, process identity)
+pub fn ambient_inputs() -> (std::time::Instant, Option<String>, u32) {
+    (std::time::Instant::now(), std::env::var("HOME").ok(), std::process::id())
+}
